@@ -113,7 +113,8 @@ func genC04(t *rapid.T) C04Case {
 	if rapid.IntRange(0, 3).Draw(t, "mutate") == 0 {
 		c.Mut = rapid.SampledFrom([]string{"nomsg", "noparen", "nodot", "nocolon", "noclose", "alpha-sec", "empty-sec",
 			"alpha-ms", "empty-ms", "alpha-seq", "bigseq", "emptyseq", "negseq", "badtype", "trunc",
-			"type-empty", "type-nospace", "type-blank", "type-gone", "msg-at-5"}).Draw(t, "mk")
+			"type-empty", "type-nospace", "type-blank", "type-gone", "msg-at-5",
+			"unk-noclose", "unk-noopen", "unk-empty", "unk-alpha", "unk-neg", "unk-big", "unk-space", "unk-plus", "unk-hex", "unk-nested"}).Draw(t, "mk")
 		c.Cut = rapid.IntRange(0, 1000).Draw(t, "cut")
 	}
 	if rapid.IntRange(0, 2).Draw(t, "hasprior") == 0 {
@@ -172,6 +173,15 @@ func (c C04Case) line() (line string, afterMsg string) {
 		return "msg=audit(" + s + "." + ms + ":" + n + "):" + tail, ""
 	case "msg-at-5":
 		return "12345msg=audit(" + s + "." + ms + ":" + n + "):" + tail, ""
+	case "unk-noclose", "unk-noopen", "unk-empty", "unk-alpha", "unk-neg", "unk-big", "unk-space", "unk-plus", "unk-hex", "unk-nested":
+		// a type name that is neither a name of the table nor UNKNOWN[n] with a number n that is a record type:
+		// the bracket form with a bracket missing, with nothing, a letter, a sign, a blank or a prefix in it, or
+		// with a number no record type has
+		num := strconv.Itoa(int(c.Typ))
+		name := map[string]string{"unk-noclose": "UNKNOWN[" + num, "unk-noopen": "UNKNOWN" + num + "]", "unk-empty": "UNKNOWN[]", "unk-alpha": "UNKNOWN[x" + num + "]",
+			"unk-neg": "UNKNOWN[-" + num + "]", "unk-big": "UNKNOWN[" + strconv.Itoa(65536+int(c.Typ)) + "]", "unk-space": "UNKNOWN[" + num + " ]", "unk-plus": "UNKNOWN[+" + num + "]",
+			"unk-hex": "UNKNOWN[0x" + strconv.FormatInt(int64(c.Typ), 16) + "]", "unk-nested": "UNKNOWN[[" + num + "]"}[c.Mut]
+		return "type=" + name + " msg=audit(" + s + "." + ms + ":" + n + "):" + tail, ""
 	case "badtype":
 		return "type=NO_SUCH_TYPE msg=audit(" + s + "." + ms + ":" + n + "):" + tail, ""
 	case "trunc":
